@@ -38,6 +38,16 @@ def _disk(text, note_extra=""):
     }
 
 
+def _query(text, note_extra=""):
+    return {
+        "engine": "query",
+        "technique": "real query executions (seeded corpora and batteries, six handle phases) recorded call by call and validated by TLC against the TLA+ specification (Mv2Core frame table + Mv2Query contracts + model-checked QueryLang semantics)",
+        "text": text,
+        "note": "Trusts TLC, the harness concretisation/projection, and Mv2Core's frame table (itself validated call by call in the same recording). Ranking order is not judged. 4 corpora of 6..48 documents in the quick tier, 24 corpora up to 120 documents in the thorough tier. " + note_extra,
+        "design_ref": "DESIGN.md §4.5, §6",
+    }
+
+
 ENGINES = [
     {"name": "walring", "path": "lib/eng_walring.py", "serves_properties": ["C05"],
      "kind_free_text": "WalRing/WalAbs TLA+ models; transition tour of the TLC state graph replayed on the real EmbeddedWal; random real runs validated by TLC"},
@@ -50,6 +60,8 @@ ENGINES.append({"name": "func", "path": "lib/eng_func.py", "serves_properties": 
                 "kind_free_text": "TLA+ transcriptions of self-contained algorithms (FooterScan, QueryLang, Snippet, Adaptive) model-checked against the property's own statement; abstract cases executed on the real functions and judged by TLC (Trace_Func)"})
 ENGINES.append({"name": "disk", "path": "lib/eng_disk.py", "serves_properties": ["C02", "C03", "C04", "C22"],
                 "kind_free_text": "LD_PRELOAD recorder of file mutations; offline reconstruction of every process-crash and sampled power-loss directory; real recovery (open, second open, verify, doctor, read-only) on each; crash events validated by TLC against Mv2Core (TCrash)"})
+ENGINES.append({"name": "query", "path": "lib/eng_query.py", "serves_properties": ["C08", "C09", "C10", "C11", "C12", "C13", "C16", "C28"],
+                "kind_free_text": "seeded corpora and query batteries on the real Memvid in six phases (pre-commit, committed, after deletes/updates, reopened rw/ro, after doctor rebuild); every query call is a trace event validated by TLC against Mv2Core + Mv2Query contracts"})
 NOT_YET = "check not built yet in this revision of the machinery (see DESIGN.md §12 for the build order)"
 NOT_APPLICABLE = {
     "C30": "pure encode/decode fidelity of byte layouts (bincode TOC, header, footer, time index): a TLA+ model would have to re-implement the codecs; outside what state-machine specification decides (DESIGN.md §7)",
@@ -87,6 +99,13 @@ CLAIMED = {
     "C03": _disk("At sampled file operations the directory a power loss could leave is rebuilt: un-synced writes of an inode dropped entirely, cut at every prefix, with any single one missing, or with the last one torn at half; un-synced renames lost or kept; the other inodes durable or volatile. The real open runs on each and TLC requires the same two-state rule, which implies that every call that returned (its log record or commit was fsynced) is present.", "Ordering obligations are not stated separately: a missing fsync shows up as a power-loss state that loses an acknowledged call."),
     "C04": _disk("Histories leave pending log records (handle lost), then open: every mutation of that recovery is a crash point (process and power), judged as above with the open as the in-flight call; after every successful recovery the file is closed and opened again and the frame table must not change (second_same)."),
     "C22": _disk("Every reconstructed directory (crash-left, power-loss, torn) is fed to open, a second open, timeline, verify, doctor + verify + doctor + open on a copy, and open_read_only + verify on a copy, each under catch_unwind with a 60 s watchdog; TLC rejects any recording in which one of them panicked or hung.", "Claimed for the specification-generated family of files only (DESIGN 6 C22): unstructured random bytes are not generated by this technique."),
+    "C09": _query("Single-word queries for every vocabulary word, with and without the sketch pre-filter, top_k above the number of matches: TLC computes from the specification's frame table the set of committed active documents containing the word and requires every one of them among the hits (live, reopened read-write and read-only, after doctor)."),
+    "C10": _query("For every hit of every query (single words, boolean expressions printed from random ASTs with NOT/AND/OR/implicit AND/parentheses, tag terms, uri filter): the frame exists and is active in the specification's table, the document's atoms satisfy the query under the model-checked QueryLang semantics, ranks are 1..n, n <= top_k, the hit text equals the frame text at the hit range, the range is non-empty and inside the chunk range."),
+    "C11": _query("Queries with as_of_frame / as_of_ts (with and without sketch): every hit has id <= n / timestamp <= t in the specification's table and is among the hits of the same query without cut-off (issued in the same call with top_k 1000); the ask path is checked for as_of_frame too."),
+    "C12": _query("Documents carry ACL metadata of every shape (public / restricted with roles, groups, principals; quoted and padded values; missing, no tenant, unknown visibility, malformed list); queries carry caller contexts in enforce and audit mode through search, vector-with-text, adaptive and ask: in enforce mode every returned frame must be allowed by the transcribed policy, enforce without tenant must be an error, audit with a context must return exactly the hits of the same query without context."),
+    "C13": _query("search_vec with integer query vectors: result length min(k, m), reported squared distances equal the exact ones computed by TLC from the embedding ids, non-decreasing, no duplicates, no omitted active embedded frame strictly closer than the last hit; a query of another dimension must fail with VecDimensionMismatch; identical distance sequences after reopen (rw, ro) and doctor rebuild.", "Brute-force index only (default features); extreme float values are outside what this technique judges."),
+    "C16": _query("Paged requests (page sizes 1..25, corpora with 48-90 matches so that the engine's candidate limit matters) are followed to the end: the concatenated pages must equal the one-request sequence (frame, range) and total_hits must be the same on every page.", "The total_hits inconsistency of the pinned tree is recorded as a known finding."),
+    "C28": _query("The same battery (same query ids) is issued on the live handle after the commit, after reopen read-write, after reopen read-only and after a doctor rebuild of all indexes: for an unchanged frame table the hit sets (distance sequences for vector search) must be equal; searches issued between put and commit must satisfy the soundness contract on the table including the pending window."),
     "C05": {
         "engine": "walring",
         "technique": "TLA+ cell-level model (WalRing) exhaustively checked by TLC + refinement to WalAbs; every TLC transition replayed on the real EmbeddedWal; recorded real runs validated against WalAbs by TLC",
